@@ -11,6 +11,7 @@ import (
 	"go/format"
 	"go/token"
 	"go/types"
+	"hash/fnv"
 	"os"
 	"path/filepath"
 	"strconv"
@@ -44,6 +45,7 @@ type rewriter struct {
 	recv2   map[ast.Node]bool
 	n       int
 	usedVrt bool
+	usedUnsafe bool
 }
 
 func (r *rewriter) tmp(p string) *ast.Ident {
@@ -326,6 +328,263 @@ func (r *rewriter) rewriteChanRange(n *ast.RangeStmt) ([]ast.Stmt, ast.Stmt) {
 	return pre, &ast.ForStmt{Body: &ast.BlockStmt{List: body}}
 }
 
+// ---------------------------------------------------------------- plain field accesses
+//
+// accPass inserts, before every simple statement, a note vrt.Acc(base, offset, write) for
+// each plain access `x.f` the statement makes, where x is a variable holding a struct (or
+// a pointer to one) declared in an instrumented package and f is a field of a non-struct,
+// non-synchronisation type. The note does not evaluate anything (unsafe.Offsetof is a
+// constant; a nil base is ignored), is not a decision point, and only feeds the explorers'
+// dependence relation: two transitions that touch the same field, one of them writing,
+// do not commute.
+
+type accNote struct {
+	root  *ast.Ident
+	sel   *ast.SelectorExpr
+	write bool
+	byPtr bool
+	class uint32 // hash of package.Type.field
+	addr  bool   // only the address is taken (&x.f, e.g. for an atomic operation)
+}
+
+var accPkgs = map[string]bool{} // package paths whose struct types are tracked
+
+func (r *rewriter) fieldAccess(sel *ast.SelectorExpr) (*accNote, bool) {
+	id, ok := ast.Unparen(sel.X).(*ast.Ident)
+	if !ok {
+		return nil, false
+	}
+	v, ok := r.info.Uses[id].(*types.Var)
+	if !ok || v.IsField() {
+		return nil, false
+	}
+	s, ok := r.info.Selections[sel]
+	if !ok || s.Kind() != types.FieldVal || len(s.Index()) != 1 {
+		return nil, false
+	}
+	t := v.Type()
+	byPtr := false
+	if p, ok := t.Underlying().(*types.Pointer); ok {
+		t = p.Elem()
+		byPtr = true
+	}
+	named, ok := t.(*types.Named)
+	if !ok || named.Obj().Pkg() == nil || !accPkgs[named.Obj().Pkg().Path()] {
+		return nil, false
+	}
+	if _, ok := named.Underlying().(*types.Struct); !ok {
+		return nil, false
+	}
+	if !byPtr && v.Pkg() != nil && v.Parent() != v.Pkg().Scope() {
+		// a local struct value is private to its goroutine unless its address escapes;
+		// only pointers and package-level variables are tracked
+		return nil, false
+	}
+	// field type: skip embedded structs and synchronisation objects (their methods are the
+	// decision points), keep scalars, strings, pointers, maps, slices, channels, interfaces
+	ft := s.Obj().Type()
+	if n, ok := ft.(*types.Named); ok && n.Obj().Pkg() != nil {
+		switch n.Obj().Pkg().Path() {
+		case "sync", "sync/atomic":
+			return nil, false
+		}
+	}
+	switch ft.Underlying().(type) {
+	case *types.Struct:
+		return nil, false
+	}
+	h := fnv.New32a()
+	h.Write([]byte(named.Obj().Pkg().Path() + "." + named.Obj().Name() + "." + sel.Sel.Name))
+	return &accNote{root: id, sel: sel, byPtr: byPtr, class: h.Sum32()}, true
+}
+
+// collectAcc gathers the accesses made by the expressions of one statement (not its
+// nested blocks or function literals).
+func (r *rewriter) collectAcc(stmtPos, stmtEnd token.Pos, nodes []ast.Node, writes map[*ast.SelectorExpr]bool) []accNote {
+	var out []accNote
+	seen := map[string]int{}
+	addrOf := map[*ast.SelectorExpr]bool{}
+	for _, n := range nodes {
+		if n == nil || reflectNil(n) {
+			continue
+		}
+		ast.Inspect(n, func(x ast.Node) bool {
+			switch e := x.(type) {
+			case *ast.FuncLit, *ast.BlockStmt:
+				return false
+			case *ast.UnaryExpr:
+				if e.Op == token.AND {
+					if s, ok := ast.Unparen(e.X).(*ast.SelectorExpr); ok {
+						addrOf[s] = true
+					}
+				}
+			case *ast.SelectorExpr:
+				a, ok := r.fieldAccess(e)
+				if ok && addrOf[e] {
+					a.addr = true
+				}
+				if !ok {
+					return true
+				}
+				// the root variable must be declared before this statement
+				if obj := r.info.Uses[a.root]; obj == nil || (obj.Pos() >= stmtPos && obj.Pos() <= stmtEnd) {
+					return true
+				}
+				a.write = writes[e]
+				k := a.root.Name + "." + e.Sel.Name
+				if a.addr {
+					k = "&" + k
+				}
+				if i, dup := seen[k]; dup {
+					if a.write {
+						out[i].write = true
+					}
+					return true
+				}
+				seen[k] = len(out)
+				out = append(out, *a)
+			}
+			return true
+		})
+	}
+	return out
+}
+
+func reflectNil(n ast.Node) bool {
+	switch v := n.(type) {
+	case ast.Expr:
+		return v == nil
+	case ast.Stmt:
+		return v == nil
+	}
+	return false
+}
+
+// writeTargets marks the selector expressions a statement writes: x.f = , x.f op= , x.f++ ,
+// x.f[k] = (element of a map/slice field), delete(x.f, k).
+func writeTargets(lhs []ast.Expr, writes map[*ast.SelectorExpr]bool) {
+	for _, l := range lhs {
+		e := ast.Unparen(l)
+		for {
+			if ix, ok := e.(*ast.IndexExpr); ok {
+				e = ast.Unparen(ix.X)
+				continue
+			}
+			break
+		}
+		if s, ok := e.(*ast.SelectorExpr); ok {
+			writes[s] = true
+		}
+	}
+}
+
+func (r *rewriter) notesFor(st ast.Stmt) []ast.Stmt {
+	writes := map[*ast.SelectorExpr]bool{}
+	var nodes []ast.Node
+	switch s := st.(type) {
+	case *ast.AssignStmt:
+		if s.Tok != token.DEFINE {
+			writeTargets(s.Lhs, writes)
+		}
+		for _, e := range s.Lhs {
+			nodes = append(nodes, e)
+		}
+		for _, e := range s.Rhs {
+			nodes = append(nodes, e)
+		}
+	case *ast.IncDecStmt:
+		writeTargets([]ast.Expr{s.X}, writes)
+		nodes = append(nodes, s.X)
+	case *ast.ExprStmt:
+		if c, ok := s.X.(*ast.CallExpr); ok && r.isBuiltin(c.Fun, "delete") && len(c.Args) == 2 {
+			writeTargets(c.Args[:1], writes)
+		}
+		nodes = append(nodes, s.X)
+	case *ast.SendStmt:
+		nodes = append(nodes, s.Chan, s.Value)
+	case *ast.ReturnStmt:
+		for _, e := range s.Results {
+			nodes = append(nodes, e)
+		}
+	case *ast.IfStmt:
+		if s.Init != nil {
+			nodes = append(nodes, s.Init)
+		}
+		nodes = append(nodes, s.Cond)
+	case *ast.SwitchStmt:
+		if s.Init != nil {
+			nodes = append(nodes, s.Init)
+		}
+		if s.Tag != nil {
+			nodes = append(nodes, s.Tag)
+		}
+	case *ast.RangeStmt:
+		nodes = append(nodes, s.X)
+	case *ast.ForStmt:
+		if s.Cond != nil {
+			nodes = append(nodes, s.Cond)
+		}
+	case *ast.DeferStmt:
+		for _, e := range s.Call.Args {
+			nodes = append(nodes, e)
+		}
+	case *ast.GoStmt:
+		for _, e := range s.Call.Args {
+			nodes = append(nodes, e)
+		}
+	case *ast.LabeledStmt:
+		return r.notesFor(s.Stmt)
+	default:
+		return nil
+	}
+	var out []ast.Stmt
+	for _, a := range r.collectAcc(st.Pos(), st.End(), nodes, writes) {
+		var base ast.Expr = ast.NewIdent(a.root.Name)
+		if !a.byPtr {
+			base = &ast.UnaryExpr{Op: token.AND, X: base}
+		}
+		w := "false"
+		if a.write {
+			w = "true"
+		}
+		off := &ast.CallExpr{Fun: &ast.SelectorExpr{X: ast.NewIdent("unsafe"), Sel: ast.NewIdent("Offsetof")},
+			Args: []ast.Expr{&ast.SelectorExpr{X: ast.NewIdent(a.root.Name), Sel: ast.NewIdent(a.sel.Sel.Name)}}}
+		ptr := &ast.CallExpr{Fun: &ast.SelectorExpr{X: ast.NewIdent("unsafe"), Sel: ast.NewIdent("Pointer")}, Args: []ast.Expr{base}}
+		cls := &ast.BasicLit{Kind: token.INT, Value: strconv.FormatUint(uint64(a.class), 10)}
+		if a.addr {
+			out = append(out, &ast.ExprStmt{X: vrtCall("Cls", ptr, off, cls)})
+		} else {
+			out = append(out, &ast.ExprStmt{X: vrtCall("Acc", ptr, off, ast.NewIdent(w), cls)})
+		}
+		r.usedVrt = true
+		r.usedUnsafe = true
+	}
+	return out
+}
+
+func (r *rewriter) accList(list []ast.Stmt) []ast.Stmt {
+	var out []ast.Stmt
+	for _, st := range list {
+		out = append(out, r.notesFor(st)...)
+		out = append(out, st)
+	}
+	return out
+}
+
+func (r *rewriter) accPass(f *ast.File) {
+	ast.Inspect(f, func(n ast.Node) bool {
+		switch b := n.(type) {
+		case *ast.BlockStmt:
+			b.List = r.accList(b.List)
+		case *ast.CaseClause:
+			b.Body = r.accList(b.Body)
+		case *ast.CommClause:
+			b.Body = r.accList(b.Body)
+		}
+		return true
+	})
+}
+
 func main() {
 	repo := flag.String("repo", "/repo", "module root")
 	out := flag.String("out", "", "output dir")
@@ -333,9 +592,15 @@ func main() {
 	extra := flag.String("extra", "", "comma list of src=dst extra overlay mappings")
 	mounts := flag.String("mount", "", "comma list of srcdir=dstdir: every .go file of srcdir is overlaid into dstdir (relative to the module root)")
 	noimp := flag.String("keep", "", "comma list of import paths NOT to substitute (e.g. os)")
+	accFlag := flag.String("acc", "", "comma list of package paths whose struct fields get plain-access notes (vrt.Acc)")
 	flag.Parse()
 	for _, k := range strings.Split(*noimp, ",") {
 		delete(importMap, k)
+	}
+	for _, k := range strings.Split(*accFlag, ",") {
+		if k != "" {
+			accPkgs[k] = true
+		}
 	}
 	pats := flag.Args()
 	os.MkdirAll(*out, 0755)
@@ -382,6 +647,9 @@ func main() {
 					changedImport = true
 				}
 			}
+			if accPkgs[p.PkgPath] {
+				r.accPass(f)
+			}
 			astutil.Apply(f, r.pre, r.post)
 			reloc, isReloc := relocate[p.PkgPath]
 			if !r.usedVrt && !changedImport && !isReloc {
@@ -389,6 +657,9 @@ func main() {
 			}
 			if r.usedVrt {
 				astutil.AddNamedImport(p.Fset, f, "vrt", vbase+"vrt")
+			}
+			if r.usedUnsafe {
+				astutil.AddImport(p.Fset, f, "unsafe")
 			}
 			f.Comments = nil
 			var buf bytes.Buffer
